@@ -35,10 +35,11 @@ import (
 // through a staging receiver.
 
 type c41case struct {
-	Root string   `json:"root"` // absent | empty | other | copy | renamed
-	Pre  bool     `json:"pre"`  // an earlier endpoint instance of the session staged the request and was shut down
-	Req  []string `json:"req"`  // requested paths, in order (x,y have different content; z has the content of x)
-	Max  uint64   `json:"max"`  // MaximumEntryCount (0 = version default = unlimited)
+	Root string   `json:"root"`          // absent | empty | other | copy | renamed
+	Pre  bool     `json:"pre"`           // an earlier endpoint instance of the session staged the request and was shut down
+	Req  []string `json:"req"`           // requested paths, in order (x,y have different content; z has the content of x)
+	Max  uint64   `json:"max"`           // MaximumEntryCount (0 = version default = unlimited)
+	Mod  string   `json:"mod,omitempty"` // what happens, right after the first successful scan, to the root file that carries a wanted digest (roots copy/renamed): "" | same-size | resized | deleted | dir
 	Ops  []string `json:"ops"`
 }
 
@@ -83,6 +84,37 @@ func c41setupRoot(dir, variant string) (string, error) {
 		err = fmt.Errorf("unknown root variant %q", variant)
 	}
 	return root, err
+}
+
+// c41modify changes the root file that carries a wanted digest (c in "copy",
+// o/r in "renamed") after it has been scanned.
+func c41modify(root, variant, mod string) error {
+	var path string
+	var content []byte
+	switch variant {
+	case "copy":
+		path, content = filepath.Join(root, "c"), c41X
+	case "renamed":
+		path, content = filepath.Join(root, "o", "r"), c41Y
+	default:
+		return fmt.Errorf("root variant %q has no digest-carrying file", variant)
+	}
+	switch mod {
+	case "same-size": // rewritten in place, same length, other bytes
+		m := append([]byte{}, content...)
+		m[0] ^= 0x20
+		return writeFileAt(path, m, 5)
+	case "resized":
+		return writeFileAt(path, append(append([]byte{}, content...), "more\n"...), 5)
+	case "deleted":
+		return os.Remove(path)
+	case "dir":
+		if err := os.Remove(path); err != nil {
+			return err
+		}
+		return os.Mkdir(path, 0o755)
+	}
+	return fmt.Errorf("unknown modification %q", mod)
 }
 
 // c41plan is the transition plan the controller would send for the request.
@@ -248,6 +280,7 @@ func c41run(e *env, src string, c c41case, logf func(string, ...any)) (res c41re
 				res.infra = fmt.Sprintf("scan count %d differs from independent walk %d (%s)", got, v.count, v)
 				return
 			}
+			firstOk := !haveOk
 			freshS, freshT, haveOk, failedSince, cOk = true, true, true, false, v.count
 			scanFiles = map[string]string{}
 			for q, d := range v.files {
@@ -259,6 +292,15 @@ func c41run(e *env, src string, c c41case, logf func(string, ...any)) (res c41re
 				res.outcomes = append(res.outcomes, "scan:ok")
 			}
 			logf("op %d scan: ok count=%d (disk %s)", i, cOk, v)
+			// "Random staging requests over roots containing copies, renames ...": the
+			// file the session just scanned changes before anything is staged.
+			if firstOk && c.Mod != "" {
+				if err := c41modify(root, c.Root, c.Mod); err != nil {
+					res.infra = "modify: " + err.Error()
+					return
+				}
+				logf("op %d scan: afterwards the digest-carrying root file is %s (disk %s)", i, c.Mod, walkRoot(root))
+			}
 
 		case "stage":
 			R, sigs, recv, err := ep.Stage(append([]string(nil), c.Req...), c41digests(c.Req))
@@ -305,13 +347,12 @@ func c41run(e *env, src string, c c41case, logf func(string, ...any)) (res c41re
 			for k, p := range c.Req {
 				hexd := sha1hex(c41content(p))
 				_ = digests[k]
-				// inRootAtScan: some file seen by the last successful scan has the digest;
-				// stillThere: one of THOSE files is unchanged on disk now (a file that only
-				// appeared after the scan is something the session cannot know about).
-				inRootAtScan, stillThere := false, false
+				// stillThere: a file seen by the last successful scan with this digest is
+				// unchanged on disk now (a file that only appeared after the scan is
+				// something the session cannot know about).
+				stillThere := false
 				for q, d := range scanFiles {
 					if d == hexd {
-						inRootAtScan = true
 						if now.files[q] == hexd {
 							stillThere = true
 						}
@@ -332,7 +373,8 @@ func c41run(e *env, src string, c c41case, logf func(string, ...any)) (res c41re
 				} else {
 					// "treating content as already available only if it is already staged or
 					// a file with the same digest exists in the root"
-					if staged[p] == stNo && !inRootAtScan && !inRootNow {
+					// Presence in the root is judged at stage time (own hash of the root now).
+					if staged[p] == stNo && !inRootNow {
 						res.viol = fmt.Sprintf("op %d: Stage omitted %q although its content is neither staged nor present in the root", i, p)
 						return
 					}
@@ -489,10 +531,10 @@ func TestC41(t *testing.T) {
 	}
 	reqs := c41requests(maxReq)
 	seqs := c41sequences(depth)
-	r.Rule(fmt.Sprintf("root variant {absent, empty, unrelated file, copy of wanted digest under another name, wanted digest at a to-be-removed old name} x pre-staged by an earlier endpoint instance {no,yes} x every ordered request of 1..%d distinct paths from {x,y,z} (z has the digest of x) x MaximumEntryCount in {c0-1, c0, c0+n-1, c0+n, c0+n+1, unlimited} (c0 = entries in the root, n = request length) x every sequence of exactly %d ops from {scan, stage(+complete delivery), transition(plan creating the request), grow(external file)} ending in stage or transition (all shorter sequences are prefixes; the oracle runs after every op); non-trivial = some Stage or Transition call got past the scan guard (accepted, or refused by the limit); distinct by the whole case", maxReq, depth))
+	r.Rule(fmt.Sprintf("root variant {absent, empty, unrelated file, copy of wanted digest under another name, wanted digest at a to-be-removed old name} x (roots copy/renamed, limits unlimited and c0+n) the digest-carrying root file right after the first successful scan {unchanged, rewritten same size, resized, deleted, replaced by a directory} x pre-staged by an earlier endpoint instance {no,yes} x every ordered request of 1..%d distinct paths from {x,y,z} (z has the digest of x) x MaximumEntryCount in {c0-1, c0, c0+n-1, c0+n, c0+n+1, unlimited} (c0 = entries in the root, n = request length) x every sequence of exactly %d ops from {scan, stage(+complete delivery), transition(plan creating the request), grow(external file)} ending in stage or transition (all shorter sequences are prefixes; the oracle runs after every op); non-trivial = some Stage or Transition call got past the scan guard (accepted, or refused by the limit); distinct by the whole case", maxReq, depth))
 	r.Assume("watch mode no-watch: no background scans; polling endpoints are not covered here",
 		"every delivery through a staging receiver is complete and correct (corrupt deliveries are C10)",
-		"external changes only ever add unrelated files; the empty request (never sent by the controller) is not enumerated",
+		"apart from the enumerated modification of the digest-carrying file, external changes only ever add unrelated files; the empty request (never sent by the controller) is not enumerated",
 		"where the statement is silent the oracle accepts both behaviours: whether a Transition call empties the staging area; whether a Stage after a FAILED re-scan is accepted when the older successful scan's count still fits")
 
 	type combo struct {
@@ -500,6 +542,7 @@ func TestC41(t *testing.T) {
 		pre  bool
 		req  []string
 		max  uint64
+		mod  string
 	}
 	var combos []combo
 	for _, root := range c41roots {
@@ -514,7 +557,14 @@ func TestC41(t *testing.T) {
 		for _, pre := range []bool{false, true} {
 			for _, req := range reqs {
 				for _, m := range c41maxes(c0, uint64(len(req))) {
-					combos = append(combos, combo{root, pre, req, m})
+					combos = append(combos, combo{root, pre, req, m, ""})
+					// The scanned copy/rename source changes before staging: with the limit out
+					// of the way (unlimited) and exactly fitting (c0+n).
+					if (root == "copy" || root == "renamed") && (m == 0 || m == c0+uint64(len(req))) {
+						for _, mod := range []string{"same-size", "resized", "deleted", "dir"} {
+							combos = append(combos, combo{root, pre, req, m, mod})
+						}
+					}
 				}
 			}
 		}
@@ -541,7 +591,7 @@ func TestC41(t *testing.T) {
 		defer l.Flush()
 		cb := combos[i]
 		for _, seq := range seqs {
-			c := c41case{cb.root, cb.pre, cb.req, cb.max, seq}
+			c := c41case{Root: cb.root, Pre: cb.pre, Req: cb.req, Max: cb.max, Mod: cb.mod, Ops: seq}
 			res := c41run(e, src, c, func(string, ...any) {})
 			if res.infra != "" {
 				infraMu.Lock()
@@ -587,9 +637,10 @@ func TestC41(t *testing.T) {
 	if len(infra) > 0 {
 		t.Fatalf("INFRA: %s", strings.Join(infra, "\n"))
 	}
-	r.Sample(c41case{"copy", false, []string{"x", "y"}, 5, []string{"scan", "stage", "scan", "stage"}})
-	r.Sample(c41case{"renamed", true, []string{"y", "x"}, 0, []string{"scan", "stage", "transition", "scan"}})
-	r.Sample(c41case{"other", false, []string{"x"}, 2, []string{"scan", "grow", "scan", "stage"}})
+	r.Sample(c41case{Root: "copy", Req: []string{"x", "y"}, Max: 5, Ops: []string{"scan", "stage", "scan", "stage"}})
+	r.Sample(c41case{Root: "renamed", Pre: true, Req: []string{"y", "x"}, Ops: []string{"scan", "stage", "transition", "scan"}})
+	r.Sample(c41case{Root: "other", Req: []string{"x"}, Max: 2, Ops: []string{"scan", "grow", "scan", "stage"}})
+	r.Sample(c41case{Root: "copy", Req: []string{"x"}, Mod: "same-size", Ops: []string{"scan", "stage", "scan", "stage"}})
 }
 
 // c41cut shortens a failing case to the prefix that ends at the failing op
@@ -630,5 +681,9 @@ func c41key(cut c41case, viol string) string {
 			b.WriteRune(r)
 		}
 	}
-	return fmt.Sprintf("%s | root=%s | ops=%s", b.String(), cut.Root, strings.Join(cut.Ops, ","))
+	root := cut.Root
+	if cut.Mod != "" {
+		root += "+" + cut.Mod
+	}
+	return fmt.Sprintf("%s | root=%s | ops=%s", b.String(), root, strings.Join(cut.Ops, ","))
 }
